@@ -39,9 +39,10 @@ PROPS = {
                 families=_fam([('struct', 12000)], [('struct', 250000), ('sub', 30000), ('desc', 30000)]),
                 spec=lambda l: l['entry'] == 'query', tags=['C07']),
     'C08': dict(title='WithSilent suppresses exactly the suppressible errors',
-                families=_fam([('pg', 0), ('rand', 6000), ('struct', 3000), ('filter', 2500), ('meth', 2000), ('ctx', 3000)],
-                              [('rand', 150000), ('struct', 60000), ('filter', 60000), ('meth', 20000), ('kleene', 30000)]),
-                spec=lambda l: True, tags=['C08']),
+                families=_fam([('pg', 0), ('rand', 6000), ('struct', 3000), ('filter', 2500), ('meth', 2000), ('ctx', 3000), ('cancel', 25)],
+                              [('rand', 150000), ('struct', 60000), ('filter', 60000), ('meth', 20000), ('kleene', 30000), ('cancel', 300)]),
+                # cancellation is the one error WithSilent must never suppress: the C20 relations on silent runs decide C08 too
+                spec=lambda l: True, tags=['C08', 'C20']),
     'C09': dict(title='steps compose; context is left intact',
                 families=_fam([('ctx', 6000), ('compose', 4000), ('group9', 2500)], [('ctx', 0), ('compose', 60000), ('group9', 40000)]),
                 spec=lambda l: l['entry'] == 'query', tags=['C09']),
@@ -56,7 +57,7 @@ PROPS = {
                 spec=lambda l: l['entry'] == 'query', tags=['C12']),
     'C13': dict(title='arithmetic is exact or fails loudly',
                 families=_fam([('math', 9000)], [('math', 120000)]),
-                spec=lambda l: l['entry'] == 'query', tags=['C13']),
+                spec=lambda l: True, tags=['C13']),
     'C14': dict(title='array subscripts',
                 families=_fam([('sub', 12000)], [('sub', 0)]),
                 spec=lambda l: l['entry'] == 'query', tags=['C14']),
@@ -64,7 +65,7 @@ PROPS = {
                 families=_fam([('desc', 12000)], [('desc', 0)]),
                 spec=lambda l: l['entry'] == 'query', tags=['C15']),
     'C16': dict(title='item methods',
-                families=_fam([('meth', 9000)], [('meth', 0)]),
+                families=_fam([('meth', 9000), ('kv', 3000)], [('meth', 0), ('kv', 60000)]),
                 spec=lambda l: l['entry'] == 'query', tags=['C16']),
     'C17': dict(title='datetime methods (executor-model leg)',
                 families=_fam([('dt', 6000)], [('dt', 0)]),
@@ -599,7 +600,7 @@ def generic_check(prop, tier, seed, replay, t_start, log, extra_oracle=None):
             'cases': totals.get('cases', 0),
             'runs': totals.get('runs', 0),
             'traces_validated_against_impl': totals.get('comparisons', 0),
-            'disagreements_checked': totals.get('comparisons', 0),
+            'disagreements_checked': len(ties) + len(specbad) + len(propbad) + len(impure),
             'model_vs_impl_disagreements': len(ties),
             'spec_comparisons': totals.get('spec_comparisons', 0),
             'spec_vs_impl_mismatches': totals.get('spec_mismatches', 0),
